@@ -81,6 +81,9 @@ INCOMPAT = {
     "pure_functions": ({"op": "pure_shell"}, ["wfn", "wfx"], False),
     "nonaufbau": ({"op": "nonaufbau"}, ["fchk"], False),
     "no_schema_name": ({"op": "drop_extra", "key": "schema_name"}, ["json_qcschema"], False),
+    # shells of an angular momentum beyond the format's convention table (not one of the reasons listed in the
+    # quantifier, but an incompatibility in the sense of the statement; two-sided oracle as for the others)
+    "high_angmom": ({"op": "gen_shell", "angmoms": [5]}, ["molden", "molekel", "wfn", "wfx", "fchk"], False),
 }
 WFN_SOURCES = {"fchk", "molden", "molekel", "wfn", "wfx"}
 NO_DUMP_FMT = ["gromacs", "charmm", "gaussianlog", "mwfn", "cp2klog"]
@@ -91,6 +94,21 @@ INPUT_TEMPLATES = [
     "#n {lot}/{obasis_name} {run_type}\n\n{title}\n\n{charge} {spinmult}\n{geometry}\n\n",
     "! {lot} {obasis_name}\n* xyz {charge} {spinmult}\n{geometry}\n*\n{extra_cmd}\n",
 ]
+
+
+def declared_required(func):
+    """Attributes a dump function declares as required: its `required` list together with what its generated
+    documentation tells the user ("must have the following attributes initialized: ``a``, ``b``.")."""
+    import re
+
+    names = list(getattr(func, "required", []))
+    doc = func.__doc__ or ""
+    m = re.search(r"must have the following attributes initialized:\s*(.*?)\.(?:\s|$)", doc, re.S)
+    if m:
+        for name in re.findall(r"``(\w+)``", m.group(1)):
+            if name not in names:
+                names.append(name)
+    return names
 
 
 def setup_worker():
@@ -184,7 +202,7 @@ def gen_workload(rng, tier):
     if objs and r < 0.30:
         from iodata.api import FORMAT_MODULES
 
-        req = list(getattr(FORMAT_MODULES[fmt], op).required)
+        req = declared_required(getattr(FORMAT_MODULES[fmt], op))
         # every required attribute alone (most often), and arbitrary subsets
         k = 1 if rng.random() < 0.6 else rng.randint(1, len(req))
         attrs_ = sorted(rng.sample(req, k))
@@ -211,7 +229,7 @@ def enumerated_workloads():
     for op, table in (("dump_one", ONE), ("dump_many", MANY)):
         for fmt in sorted(table):
             name, recipes = table[fmt]
-            req = list(getattr(FORMAT_MODULES[fmt], op).required)
+            req = declared_required(getattr(FORMAT_MODULES[fmt], op))
             for r in range(1, len(req) + 1):
                 for sub in itertools.combinations(req, r):
                     for pre in (None, PRE):
@@ -331,7 +349,7 @@ def run_once(w, faults, budget=None):
         func = getattr(FORMAT_MODULES[w["fmt"]], w["op"])
         for j, o in enumerate(objs):
             oc = copy.deepcopy(o)
-            miss = [a for a in func.required if getattr(oc, a) is None]
+            miss = [a for a in declared_required(func) if getattr(oc, a) is None]
             if miss:
                 missing.append((j, miss))
     tracker_box = []
